@@ -61,5 +61,4 @@ PROP = {
         "reader_seek:present_in_rotated->found", "reader_seek:absent_gap->error", "reader_seek:absent_before_all->error",
         "reader_files:lines+lines", "reader_files:missing+lines",
     ]},
-    "claimed": False,
 }
